@@ -114,8 +114,10 @@ def make_method(ctx, src, method, nlab=2, deg=2, remap=False, sparse=False):
         M, D, n, mp, before, after, conv, vals, mvars = res
         obs = [Ob('result type', type(D) is O.types()[tname], info={'got': type(D).__name__}), Ob('model unchanged', before == after)]
         used = {i for k in D for i in k}
-        obs.append(Ob('labels are the mapping integers 0..n-1', used <= set(range(n)) and set(mp) == set(mvars) and sorted(mp.values()) == list(range(n)),
-                      info={'used': sorted(used), 'n': n}))
+        okmap = used <= set(range(n)) and set(mp) == set(mvars) and sorted(mp.values()) == list(range(n))
+        obs.append(Ob('labels are the mapping integers 0..n-1', okmap, info={'used': sorted(used), 'n': n, 'mapping': {repr(k): v for k, v in mp.items()}}))
+        if not okmap:
+            return obs
         tv = (1, -1) if tgt_spin else (0, 1)
         def want_conv(xs):
             w = {}
